@@ -84,6 +84,27 @@ def lemma_floor_div(d, bits=32):
     return name
 
 
+def lemma_round_half_even(d, bits=20):
+    """round(fl(n / d)) (round half to even on the double) == round-half-even of the exact rational n/d, 0 <= n < 2^bits"""
+    name = "L3_round_div_%d_u%d" % (d, bits)
+    stmt = "forall n in [0,2^%d): roundToIntegral_RNE(fl64(n / %d.0)) = round_half_even(n / %d)" % (bits, d, d)
+    w = bits + 4
+    smt = """(set-logic QF_BVFP)
+(declare-const n (_ BitVec %(w)d))
+(assert (bvult n (_ bv%(lim)d %(w)d)))
+(define-fun dd () (_ BitVec %(w)d) (_ bv%(d)d %(w)d))
+(define-fun x () (_ FloatingPoint 11 53) (fp.div RNE ((_ to_fp_unsigned 11 53) RNE n) ((_ to_fp_unsigned 11 53) RNE dd)))
+(define-fun k () (_ BitVec %(w)d) ((_ fp.to_ubv %(w)d) RNE (fp.roundToIntegral RNE x)))
+(define-fun q () (_ BitVec %(w)d) (bvudiv n dd))
+(define-fun r2 () (_ BitVec %(w)d) (bvmul (_ bv2 %(w)d) (bvurem n dd)))
+(define-fun up () Bool (or (bvugt r2 dd) (and (= r2 dd) (= ((_ extract 0 0) q) #b1))))
+(assert (not (= k (ite up (bvadd q (_ bv1 %(w)d)) q))))
+(check-sat)
+""" % {"w": w, "lim": 1 << bits, "d": d}
+    discharge(name, stmt, smt)
+    return name
+
+
 def lemma_amps(maxw=65535):
     """round(fl(w/220.0), 1) is the double nearest to k/10 with |22k - w| <= 11."""
     name = "L2_amps_%d" % maxw
@@ -150,6 +171,34 @@ class FInt(SymFloat):
 
     def to_int(self):
         return self.n
+
+    def _arith(self, o, op):
+        if isinstance(o, FInt):
+            o = o.n
+        if isinstance(o, float) and o == int(o):
+            o = int(o)
+        if isinstance(o, (int, SymInt)) and not isinstance(o, bool):
+            r = {"add": lambda a, b: a + b, "sub": lambda a, b: a - b, "rsub": lambda a, b: b - a, "mul": lambda a, b: a * b}[op](self.n, o)
+            if isinstance(r, SymInt) and (r.hi >= (1 << 53) or r.lo <= -(1 << 53)):
+                raise Unsupported("float beyond 2^53")
+            return FInt(r)
+        raise Unsupported("float arithmetic with %r" % type(o).__name__)
+
+    def __add__(self, o):
+        return self._arith(o, "add")
+
+    __radd__ = __add__
+
+    def __sub__(self, o):
+        return self._arith(o, "sub")
+
+    def __rsub__(self, o):
+        return self._arith(o, "rsub")
+
+    def __mul__(self, o):
+        return self._arith(o, "mul")
+
+    __rmul__ = __mul__
 
     def _cmp(self, o, op):
         if isinstance(o, FInt):
@@ -263,6 +312,17 @@ class FQuot(SymFloat):
     __hash__ = SymFloat.__hash__
 
     def round_(self, nd):
+        if nd is None:
+            n, d = self.n, self.d
+            if isinstance(n, int):
+                return round(n / d)
+            if n.lo < 0 or n.hi >= (1 << 20):
+                raise Unsupported("round() of a float quotient outside [0, 2^20)")
+            lemma_round_half_even(d, 20)
+            q, r = divmod(n, d)
+            from .values import i_ite, b_or, b_and, i_eq
+            up = b_or(r * 2 > d, b_and(i_eq(r * 2, d), i_eq(q % 2, 1)))
+            return q + i_ite(up, 1, 0)
         if self.d == 220 and nd == 1:
             n = self.n
             if isinstance(n, SymInt) and (n.lo < 0 or n.hi > 65535):
